@@ -260,14 +260,18 @@ Definition forbes_model (A B : list iv) (size : Z) : option (Z * Z) :=
   | None => None
   end.
 
-(* arithmetics.jaccard / forbes go through MultiStream + groupby(chromosome): at the pinned commit an interval
-   set without entries makes groupby raise ValueError before any table is computed. *)
+(* arithmetics.jaccard / forbes go through MultiStream + groupby(chromosome).  At the commit the work started from an
+   interval set without entries made groupby raise ValueError before any table was computed (pinned variant); since
+   a68b397 a table without entries has no groups and the contingency table is computed as for any other input. *)
 Inductive result (T : Type) := Ret (v : T) | Raise (code : Z).    (* code 1 = AssertionError, 2 = another exception *)
 Arguments Ret {T} v.  Arguments Raise {T} code.
 Definition of_option {T} (o : option T) : result T := match o with Some v => Ret v | None => Raise 1 end.
 Definition is_nil {T} (l : list T) : bool := match l with [] => true | _ => false end.
-Definition stream_similarity (f : list iv -> list iv -> Z -> option (Z * Z)) (A B : list iv) (size : Z) : result (Z * Z) :=
+Definition stream_similarity_pinned (f : list iv -> list iv -> Z -> option (Z * Z)) (A B : list iv) (size : Z) : result (Z * Z) :=
   if is_nil A || is_nil B then Raise 2 else of_option (f A B size).
+Definition stream_similarity_fixed (f : list iv -> list iv -> Z -> option (Z * Z)) (A B : list iv) (size : Z) : result (Z * Z) :=
+  of_option (f A B size).
+Definition stream_similarity := stream_similarity_fixed.      (* <- /repo HEAD since a68b397 *)
 Definition jaccard_stream_model := stream_similarity jaccard_model.
 Definition forbes_stream_model := stream_similarity forbes_model.
 
